@@ -41,10 +41,10 @@ def build_guard(g):
     return parts[0] if len(parts) == 1 else LogicalAnd(tuple(parts))
 
 
-def build_stmt(i, kind, guard, deps):
+def build_stmt(i, kind, guard, deps, sid=None):
     import dagrt.language as L
     from pymbolic.primitives import Variable
-    sid = "s%d" % i
+    sid = sid or "s%d" % i
     cond = build_guard(guard)
     if kind == "assign":
         return L.Assign(assignee="x%d" % i, assignee_subscript=(), expression=Variable("<state>y") + i,
@@ -227,8 +227,10 @@ def _closure(stmts):
 def make_phase(spec, order):
     import dagrt.language as L
     n = len(spec["kinds"])
+    # statement i carries the id labels[i]: the lowering orders by id, so a dependency may sort after its dependent
+    labels = spec.get("labels") or ["s%d" % i for i in range(n)]
     stmts = [build_stmt(i, spec["kinds"][i], spec["guards"][i],
-                        ["s%d" % j for (a, j) in spec["edges"] if a == i]) for i in range(n)]
+                        [labels[j] for (a, j) in spec["edges"] if a == i], sid=labels[i]) for i in range(n)]
     ph = L.ExecutionPhase(name="p", next_phase="p", statements=[stmts[i] for i in order])
     return stmts, L.DAGCode({"p": ph}, "p")
 
@@ -327,25 +329,33 @@ def gen_specs(tier, seed):
     kinds_small = ["assign", "loop1", "nop", "yield"]
     guards_small = ["T", "c0", "!c0", "c0&c1"]
     # exhaustive: N = 2 over everything, N = 3 over the reduced alphabets
+    def labellings(n):
+        return [["s%d" % j for j in perm] for perm in itertools.permutations(range(n))]
     for kinds in itertools.product(KINDS, repeat=2):
         for guards in itertools.product(GUARDS, repeat=2):
             for edges in all_edges(2):
-                specs.append({"kinds": list(kinds), "guards": list(guards), "edges": edges})
+                for labels in (labellings(2) if edges else labellings(2)[:1]):
+                    specs.append({"kinds": list(kinds), "guards": list(guards), "edges": edges, "labels": labels})
     step = 1 if tier == "thorough" else 3
     k = 0
+    lab3 = labellings(3)
     for kinds in itertools.product(kinds_small, repeat=3):
         for guards in itertools.product(guards_small, repeat=3):
             for edges in all_edges(3):
                 k += 1
                 if k % step == 0:
-                    specs.append({"kinds": list(kinds), "guards": list(guards), "edges": edges})
+                    # quick: one of the six labellings per spec (rotating); thorough: all six when there are edges
+                    for labels in (lab3 if (tier == "thorough" and edges) else [lab3[(k // step) % 6]]):
+                        specs.append({"kinds": list(kinds), "guards": list(guards), "edges": edges, "labels": labels})
     n_exh = len(specs)
     rng = random.Random(seed)
     nrand = 1500 if tier == "quick" else 15000
     for _ in range(nrand):
         n = rng.choice([4, 4, 5])
         edges = [(i, j) for i in range(n) for j in range(i) if rng.random() < 0.35]
-        specs.append({"kinds": [rng.choice(KINDS) for _ in range(n)], "guards": [rng.choice(GUARDS) for _ in range(n)], "edges": edges})
+        labels = ["s%d" % j for j in range(n)]
+        rng.shuffle(labels)
+        specs.append({"kinds": [rng.choice(KINDS) for _ in range(n)], "guards": [rng.choice(GUARDS) for _ in range(n)], "edges": edges, "labels": labels})
     return specs, n_exh, nrand
 
 
@@ -397,7 +407,7 @@ def main(tier, seed):
     if not all(run.selftests.values()):
         run.harness_errors.append("self-test failed: %r" % run.selftests)
     run.assumptions = [
-        "edges i -> j only for j < i (the lowering sorts ids, so labels matter: all label orders arise through the random family's kind/guard assignment, not through relabelling)",
+        "edges i -> j only for j < i; statement ids are a permutation of s0..s(N-1) (the lowering orders by id: a dependency may sort before or after its dependent)",
         "guards are flags, negated flags and conjunctions thereof (what the builder produces)",
         "flags are not assigned by the phase's own statements (flag assignments are ordinary statements for the lowering)",
         "the tree is compared across storage orders by an independent serialiser (dagrt's own ASTStringifier cannot print an IfThenElse node)",
